@@ -90,8 +90,12 @@ func (o *c01Oracle) after(ch *chain, ci *callInfo) *Violation {
 		}
 	case "tx":
 		// extra read-only traffic for B only
-		if ci.Tx.Mode == "check" {
-			if p := safeCall(func() { o.b.CheckTx(abci.RequestCheckTx{Tx: ci.TxBytes}) }); p != nil {
+		if ci.Tx.Mode == "check" || ci.Tx.Mode == "recheck" {
+			typ := abci.CheckTxType_New
+			if ci.Tx.Mode == "recheck" {
+				typ = abci.CheckTxType_Recheck
+			}
+			if p := safeCall(func() { o.b.CheckTx(abci.RequestCheckTx{Tx: ci.TxBytes, Type: typ}) }); p != nil {
 				o.c.Label("extra-traffic-panicked")
 			}
 			o.extra++
@@ -157,12 +161,14 @@ func (o *c01Oracle) after(ch *chain, ci *callInfo) *Violation {
 				break
 			}
 			txb := txb
-			if p := safeCall(func() { o.b.CheckTx(abci.RequestCheckTx{Tx: txb}) }); p != nil {
+			if p := safeCall(func() { o.b.CheckTx(abci.RequestCheckTx{Tx: txb, Type: abci.CheckTxType_Recheck}) }); p != nil {
 				o.c.Label("extra-traffic-panicked")
 			}
 			o.extra++
 		}
-		if p := safeCall(func() { o.b.Query(abci.RequestQuery{Path: "/custom/pos/validators", Data: ch.queryData(&hQuery{Tmpl: "page", A: 1, B: 100})}) }); p != nil {
+		if p := safeCall(func() {
+			o.b.Query(abci.RequestQuery{Path: "/custom/pos/validators", Data: ch.queryData(&hQuery{Tmpl: "page", A: 1, B: 100})})
+		}); p != nil {
 			o.c.Label("extra-traffic-panicked")
 		}
 		ia, ib := ch.app.Info(abci.RequestInfo{}), o.b.Info(abci.RequestInfo{})
@@ -184,7 +190,7 @@ func genC01(t *rapid.T, tier string) interface{} {
 		return &hProg{IterLag: genIterLag(t, tier)}
 	}
 	pr := &histProfile{Scripts: true, Batches: true, OwnerBias: 2, MaxBlocks: 20, MinBlocksOf: []int{2, 6, 12}, MaxTxs: 5, Evidence: 4, Missed: 2, Restart: 4, Queries: true, ExtraSign: true,
-		TxKinds: defaultTxKinds, Modes: []string{"", "", "check", "simulate"}, WrongSigner: 12}
+		TxKinds: defaultTxKinds, Modes: []string{"", "", "", "check", "recheck", "simulate"}, WrongSigner: 12}
 	if tier == "thorough" {
 		pr.MaxBlocks = 60
 	}
